@@ -99,6 +99,30 @@ class Comp(object):
         return self.g._body(self, args)
 
 
+def make_registry_point(g, idx, name, h, nd):
+    from insights.core import spec_factory
+
+    class RegistryPoint(spec_factory.RegistryPoint):      # dr.is_registry_point() goes by the class NAME
+        def __hash__(self):
+            return self._h
+
+        def __eq__(self, other):
+            return self is other
+
+        def __ne__(self, other):
+            return self is not other
+    RegistryPoint._h = h        # needed while the base __init__ registers the instance
+    rp = RegistryPoint(multi_output=bool(nd.get("multi_output")), filterable=bool(nd.get("filterable")),
+                       raw=bool(nd.get("raw")))
+    rp._h = h
+    rp.__name__ = name
+    rp.__qualname__ = name
+    rp.__module__ = MODNAME
+    rp.idx = idx
+    rp.g = g
+    return rp
+
+
 class Graph(object):
     def __init__(self, desc, hashes=None, name_tag=None, name_order=None):
         self.desc = desc
@@ -111,6 +135,15 @@ class Graph(object):
         n = len(desc["nodes"])
         hashes = list(hashes) if hashes is not None else list(range(n))
         for i, nd in enumerate(desc["nodes"]):
+            if nd["t"] == "rp":
+                rp = make_registry_point(self, i, "%s_n%d" % (tag, i), hashes[i], nd)
+                self.nodes.append(rp)
+                for j in nd.get("impl", []):
+                    dr.add_dependency(rp, self.nodes[j])      # what SpecSetMeta does for an implementation
+                if nd.get("en", True) is False:
+                    dr.set_enabled(rp, False)
+                self._wrap_process(rp, i)
+                continue
             # name_order lets a driver make the lexicographic name order differ from the index
             # (= a topological) order, so "sorted by name" is not accidentally a valid schedule
             name = "%s_%s_n%d" % (tag, "zyxwvutsrq"[name_order[i]], i) if name_order else "%s_n%d" % (tag, i)
@@ -227,7 +260,7 @@ class Graph(object):
         return dict((c, set(dr.get_dependencies(c))) for c in self.nodes)
 
     def index(self, comp):
-        return comp.idx if isinstance(comp, Comp) and comp.g is self else None
+        return comp.idx if getattr(comp, "g", None) is self else None
 
     def cleanup(self):
         cleanup_components(self.nodes)
@@ -256,6 +289,8 @@ def cleanup_components(comps):
 # ============================================================================================
 
 def flat_deps(nd):
+    if nd["t"] == "rp":
+        return list(nd.get("impl", []))
     out = []
     for it in nd.get("decl", []):
         if isinstance(it, list):
@@ -308,6 +343,17 @@ def ref_eval(desc, names, in_graph=None):
             continue
         if nd.get("en", True) is False:
             r.status = "disabled"
+            continue
+        if t == "rp":
+            impl = list(nd.get("impl", []))
+            live = [j for j in impl if R[j].present]
+            if not live:
+                r.status = "missing"
+                r.missing = ([], [impl])
+            else:
+                r.status = "fired"
+                r.present = True
+                r.value = R[live[-1]].value        # the last declared implementation that produced a value
             continue
         req = [it for it in nd.get("decl", []) if not isinstance(it, list)]
         grp = [it for it in nd.get("decl", []) if isinstance(it, list)]
